@@ -45,7 +45,12 @@ def run_c16(it):
     else:
         data = series
     fits = []
+    all_series, all_data = series, data
+    model = None
     for f in it["fits"]:
+        # a later fit may run on the SAME model object, on one series fewer: nothing of the earlier fit may survive
+        series = all_series[:-1] if f.get("drop_last") else all_series
+        data = all_data[:-1] if f.get("drop_last") else all_data
         opts = {}
         if f["window"]:
             opts["window"] = f["window"]
@@ -55,9 +60,11 @@ def run_c16(it):
             opts["psi"] = tuple(f["psi"]) if isinstance(f["psi"], list) else f["psi"]
         if f["use_c"]:
             opts["use_c"] = True
-        route = "fit[k=%d,seed=%d,init=%s,drop=%s,%s%s%s]" % (f["k"], f["seed"], f["init"], f["drop"],
-                                                             "c" if f["use_c"] else "py", ",mp" if f["parallel"] else "",
-                                                             ",psi=%s" % (f["psi"],) if f.get("psi") is not None else "")
+        route = "fit[k=%d,seed=%d,init=%s,drop=%s,%s%s%s%s%s]" % (f["k"], f["seed"], f["init"], f["drop"],
+                                                                 "c" if f["use_c"] else "py", ",mp" if f["parallel"] else "",
+                                                                 ",psi=%s" % (f["psi"],) if f.get("psi") is not None else "",
+                                                                 ",same-object" if f.get("reuse") else "",
+                                                                 ",one-series-fewer" if f.get("drop_last") else "")
         calls = []
 
         def monitor(cd, final):
@@ -70,8 +77,9 @@ def run_c16(it):
             if f["init"] == "sample":
                 kw["initialize_with_kmeanspp"] = True
                 kw["initialize_sample_size"] = 1
-            model = KMeans(k=f["k"], max_it=f["maxit"], max_dba_it=f["dbait"], drop_stddev=f["drop"],
-                           dists_options=opts, show_progress=False, **kw)
+            if not (f.get("reuse") and model is not None):
+                model = KMeans(k=f["k"], max_it=f["maxit"], max_dba_it=f["dbait"], drop_stddev=f["drop"],
+                               dists_options=opts, show_progress=False, **kw)
             res, performed = model.fit(data, use_parallel=f["parallel"], monitor_distances=monitor if f["monitor"] else None)
             means = list(model.means)
             dfun = dtw.distance if nd == 1 else dtw_ndim.distance
